@@ -215,7 +215,14 @@ empty @is_you(int a, int b) {
   try { !truth_is_defeat(true and p); write('6'); } undo { write('f'); }
   try { !truth_is_defeat(false); write('7'); } undo { write('g'); }
   try { !truth_is_defeat(a == b and b == 5); write('8'); } stop { write('h'); }
-}''', [[a, b] for a in (0, 1, 5, -1) for b in (0, 5, 2)]),
+  try { write('9'); !truth_is_defeat(true); write('x'); } stop { write('i'); }
+  try { write('A'); !truth_is_defeat(not false); write('x'); } undo { write('j'); }
+  try { write('B'); !truth_is_defeat(2 + 2 == 4); write('x'); } stop { write('k'); }
+  try { write('C'); !konst(a); write('y'); } stop { write('l'); }
+  try { write('D'); !konst(a); write('y'); } undo { write('m'); }
+  try { write('E'); if (a > 0) { !truth_is_defeat(true or p); } write('z'); } stop { write('n'); }
+}
+empty !konst(int a) { if (a != 1) { !truth_is_defeat(true); } write('K'); }''', [[a, b] for a in (0, 1, 5, -1) for b in (0, 5, 2)]),
     ('forced_preempt_in_defeat_fn', '''int x = 0;
 empty !deep(int n) { preempt { write('p'); write(n); } if (n > 0) { !deep(n - 1); } write('d'); !truth_is_defeat(x != 5); write('k'); }
 empty !mixed(int n) { if (n == 1) { preempt { write('q'); x = 5; } } else { preempt { write('z'); } } !truth_is_defeat(x != 5); write('m'); }
